@@ -158,7 +158,11 @@ example : (passes unitP (ST.insertLast [] (ST.ofTree lf) abcStored)).children.ma
     `min sibling_separation subtree_separation` apart in their left-to-right tree order.
     NOT proved — it is false of the code (K1), see `rt_full_false`. What is missing in the code:
     `_get_subtree_shift` compares only the last-child chain of the left subtree with the
-    first-child chain of the right subtree (after the two sibling scans), not the full contours. -/
+    first-child chain of the right subtree (after the two sibling scans), not the full contours
+    (witness: `chain_fails` below); and, independently, for `left_idx > 0` it accumulates the shift of a
+    level after dividing it by `1 - left_idx/right_idx`, so deeper levels are compared against a right
+    subtree assumed further right than it will be (this is why the K1 tree fails: `k1_outside`).
+    Proved on the class that excludes both: `rt_cousins_partial`. -/
 def RT_full : Prop :=
   ∀ (P : Params) (t : Tree), 0 < P.sib → 0 < P.sub → 0 < P.lvl → 0 ≤ P.xoff → 0 ≤ P.yoff →
     ∀ d : Nat, ((layout P t).level d).Pairwise (fun a b => a.x + min P.sib P.sub ≤ b.x)
